@@ -158,6 +158,61 @@ theorem C15_failure_then_recovery {H D : Type} [DecidableEq H] (sha : Bytes → 
   intro h
   simp [specRun, specPoll, h]
 
+/-! ## (a) the empty contract (corollaries of `C15_updates`) -/
+
+/-- **The first successful poll of an EMPTY target delivers** (an empty description): "first
+    success always delivers" has no exception for a target that serves nothing (yet). -/
+theorem C15_first_poll_of_empty_target_updates {H D : Type} [DecidableEq H] (sha : Bytes → H)
+    (hinj : Function.Injective sha) (nameOf : Bytes → Bytes) (env : Version → Attempt D) (d : D)
+    (hwf : ∀ v o p, env v = .fetched o p → ObsWF nameOf o)
+    (hoc : outcomeOf env [.v1, .v1alpha] = .fetched emptyObs (some d)) :
+    runPolls sha (RState.init H) [env] = [[.update d]] := by
+  have h := (C15_updates sha hinj nameOf [env] (fun e he => by
+    have : e = env := by simpa using he
+    subst this; exact hwf)).1
+  rw [h]
+  simp only [outcomesOf, RState.init, specRun]
+  rw [hoc]
+  simp [specPoll, sameAsLast]
+
+/-- **A change TO the empty contract is a change**: whenever the last delivered contract is not
+    empty (some service or some file) and a poll fetches the empty contract, the update is
+    delivered; a second empty poll is then silent. `Tracks` is what `C15_updates` proves of every
+    reachable bookkeeping state. -/
+theorem C15_update_to_empty_is_a_change {H D : Type} [DecidableEq H] (sha : Bytes → H)
+    (hinj : Function.Injective sha) (nameOf : Bytes → Bytes) (st : RState H) (l : Obs)
+    (ht : Tracks sha st (some l)) (hl : ObsWF nameOf l) (hne : l.names ≠ [] ∨ l.files ≠ [])
+    (env : Version → Attempt D) (d : D) (hwf : ∀ v o p, env v = .fetched o p → ObsWF nameOf o)
+    (hoc : outcomeOf env st.methodPriority = .fetched emptyObs (some d)) :
+    (pollStep sha st env).2.1 = [.update d] ∧ Tracks sha (pollStep sha st env).1 (some emptyObs) ∧
+    (specPoll (D := D) (some emptyObs) (.fetched emptyObs (some d))).2 = [] := by
+  have h := resolveLoop_spec sha hinj nameOf env hwf st (some l) ht
+    (fun l' e => by cases e; exact hl) st.methodPriority 0 []
+  rw [hoc] at h
+  have hs : sameAsLast (some l) emptyObs = false := by simpa [sameAsLast] using empty_differs l hne
+  have hp : specPoll (D := D) (some l) (.fetched emptyObs (some d)) = (some emptyObs, [.update d]) := by
+    simp [specPoll, hs]
+  rw [hp] at h
+  refine ⟨h.1, h.2.1, ?_⟩
+  have : sameAsLast (some emptyObs) emptyObs = true := by decide
+  simp [specPoll, this]
+
+/-- Negative witness for the short-circuit variant (seeded C15-m8: empty name list ⇒ `nil, nil`
+    before any fingerprint work): the first poll of an empty target delivers nothing, and after
+    `{a, b}` was delivered the change to the empty contract is swallowed — the specification and the
+    model of the real code deliver both. -/
+theorem C15_empty_short_circuit_fails :
+    callbacksOf (resolveWithMethodShortCircuit (fun b => b) (RState.init Bytes) (.fetched emptyObs (some 1))).2
+        = ([] : List (Callback Nat)) ∧
+    (specPoll none (.fetched emptyObs (some 1))).2 = [Callback.update 1] ∧
+    callbacksOf (resolveWithMethod (fun b => b) (RState.init Bytes) (.fetched emptyObs (some 1))).2
+        = [Callback.update 1] ∧
+    (let stA := (resolveWithMethod (fun b => b) (RState.init Bytes) (.fetched exO1 (some 1))).1
+     callbacksOf (resolveWithMethodShortCircuit (fun b => b) stA (.fetched emptyObs (some 2))).2 = ([] : List (Callback Nat)) ∧
+     callbacksOf (resolveWithMethod (fun b => b) stA (.fetched emptyObs (some 2))).2 = [Callback.update 2]) ∧
+    (specPoll (some exO1) (.fetched emptyObs (some 2))).2 = [Callback.update 2] := by
+  decide
+
 /-! ## (a) version fallback -/
 
 /-- **Unimplemented never hides a working version**: if version `w` answers (anything but
